@@ -31,6 +31,11 @@ PRIOR_SETS = {
     "g_only": [("gamma", "unif", None, False)],
     # parameters and initial values interleaved, states in non-model order
     "g_R_b_S": [("gamma", "unif", None, False), ("R", "unif", None, False), ("beta", "unif", (0.0, 1.0), False), ("S", "gamma", (2.0, 0.5), False)],
+    # an initial value listed BEFORE the rates, log flag on a rate: par_order is a non-trivial permutation and the
+    # log mask (Parameter-list order) differs from the permuted (loss) order
+    "J_blog_g": [("J", "unif", None, False), ("beta", "unif", (-2.0, -0.5), True), ("gamma", "unif", None, False)],
+    # states out of model order, log flag on the first
+    "Rlog_S_g": [("R", "unif", (-1.0, 1.0), True), ("S", "unif", None, False), ("gamma", "unif", None, False)],
     # initial value on log scale
     "b_J_log": [("beta", "unif", None, False), ("gamma", "unif", None, False), ("J", "unif", (-1.0, 1.0), True)],
 }
@@ -645,11 +650,13 @@ class C17(Check):
     def units(self, tier, seed):
         us = [guard_unit()]
         quick_steps = [("gb_unif", ("J",), 0, None), ("gb_unif", ("R", "J"), 1, None), ("b_log_g_gamma", ("J",), 1, None),
-                       ("g_R_b_S", ("J",), 1, None), ("b_J_log", ("R",), 0, "S"), ("g_only", ("J",), 1, None)]
+                       ("g_R_b_S", ("J",), 1, None), ("b_J_log", ("R",), 0, "S"), ("g_only", ("J",), 1, None),
+                       ("J_blog_g", ("J",), 0, None), ("Rlog_S_g", ("J", "S"), 1, None)]
         steps = list(quick_steps)
         if tier != "quick":
             steps += [("b_norm_g_log", ("J", "S"), 1, None), ("b_norm_g_log", ("J",), 0, None), ("g_R_b_S", ("R", "J"), 0, None),
-                      ("b_J_log", ("J",), 1, "R"), ("b_log_g_gamma", ("S", "J"), 0, None), ("g_R_b_S", ("S",), 1, "J")]
+                      ("b_J_log", ("J",), 1, "R"), ("b_log_g_gamma", ("S", "J"), 0, None), ("g_R_b_S", ("S",), 1, "J"),
+                      ("J_blog_g", ("R", "J"), 1, None), ("Rlog_S_g", ("J",), 0, "J")]
         for ps, sel, g, con in steps:
             us.append(step_unit(ps, sel, g, con, max_rej=1 if tier == "quick" else 2))
         us.append(run_unit("gb_unif", ("J",), "rejection", N=2))
